@@ -286,6 +286,11 @@ def gen_sampler_case(rng, kind, preset=None):
     elif kind == "integro":
         c["sampler"] = gen_sampler(rng, vars_, others, cap=30)
         c["int_sampler"] = gen_sampler(rng, vars_, ["s"], cap=6, allow_concat=False)
+        if rng.random() < 0.25:
+            # a single integral point (e.g. a non-local condition u(x, t) - u(x0, t)): every repeat factor is 1
+            leaf = c["int_sampler"]["a"] if c["int_sampler"]["op"] == "static" else c["int_sampler"]
+            if leaf["op"] == "leaf":
+                leaf["n"] = 1
     else:
         if kind == "pinn" and rng.random() < 0.08 and not group:
             c["sampler"] = {"op": "leaf", "vars": others, "kind": str(rng.choice(["adaptive_thr", "adaptive_rand"])),
